@@ -217,10 +217,12 @@ def split_fn(fname, d, v, prog, doc):
             "    let doc: &str = %s;\n"
             "    let j = vi.to_json();\n"
             "    let ser = humphrey_json::to_string(&vi);\n"
-            "    let rt = %s::from_json(&j) == Ok(vf.clone());\n"
-            "    let rtt = humphrey_json::from_str::<%s, _>(&ser) == Ok(vf.clone());\n"
+            "    let rt = %s::from_json(&j).ok() == Some(vf.clone());\n"
+            "    let back: Option<%s> = humphrey_json::from_str(&ser).ok();\n"
+            "    let rtt = back == Some(vf.clone());\n"
             "    let pe = Value::parse(doc).map(|x| x == j).unwrap_or(false);\n"
-            "    let fe = humphrey_json::from_str::<%s, _>(doc) == Ok(vf.clone());\n"
+            "    let read: Option<%s> = humphrey_json::from_str(doc).ok();\n"
+            "    let fe = read == Some(vf.clone());\n"
             "    let sp = Value::parse(&ser).map(|x| x == j).unwrap_or(false);\n"
             "    support::map_result(&j, &ser, rt, rtt, pe, fe, sp)\n"
             "}\n") % (fname, ni, rust_decl_value(v, dict(d, name=ni), prog), nf, rust_decl_value(v, dict(d, name=nf), prog),
@@ -234,10 +236,12 @@ def map_fn(fname, d, v, prog, doc):
             "    let doc: &str = %s;\n"
             "    let j = v.to_json();\n"
             "    let ser = humphrey_json::to_string(&v);\n"
-            "    let rt = %s::from_json(&j) == Ok(v.clone());\n"
-            "    let rtt = humphrey_json::from_str::<%s, _>(&ser) == Ok(v.clone());\n"
+            "    let rt = %s::from_json(&j).ok() == Some(v.clone());\n"
+            "    let back: Option<%s> = humphrey_json::from_str(&ser).ok();\n"
+            "    let rtt = back == Some(v.clone());\n"
             "    let pe = Value::parse(doc).map(|x| x == j).unwrap_or(false);\n"
-            "    let fe = humphrey_json::from_str::<%s, _>(doc) == Ok(v.clone());\n"
+            "    let read: Option<%s> = humphrey_json::from_str(doc).ok();\n"
+            "    let fe = read == Some(v.clone());\n"
             "    let sp = Value::parse(&ser).map(|x| x == j).unwrap_or(false);\n"
             "    support::map_result(&j, &ser, rt, rtt, pe, fe, sp)\n"
             "}\n") % (fname, n, rust_decl_value(v, d, prog), rust_str(json_text(doc)), n, n, n)
@@ -527,6 +531,18 @@ def judge(r, exp, alt, attr, agrees):
         if not a.get("same", True) and agrees(r, a["o"]):
             return name
     return None
+
+
+def record_of(x, r):
+    """The trace record of one executed vector: its inputs in the spec's encoding and what the real code showed."""
+    rec = {k: v for k, v in x.items() if k not in ("pidx", "split")}
+    rec["compiled"] = r["compiled"]
+    rec["rustc"] = r.get("rustc", "")
+    rec["panic"] = r.get("panic", "")
+    rec["obs"] = r.get("obs", {"t": "null", "s": "", "k": [], "c": []})
+    for k in (("rt", "rtt", "pe", "fe", "sp") if x["kind"] == "map" else ("eq",)):
+        rec[k] = bool(r.get(k, False))
+    return rec
 
 
 def brief(r):
@@ -967,6 +983,7 @@ def _conformance(ctx, tier, thorough, replay, work, model_job):
     # ---- 5. enumerated vectors against TLC's expectation --------------------------------------------
     n_eval, nontrivial, mism, tally = 0, set(), 0, {}
     findings = []                        # (what, replay object, deviation or None); reported shortest first
+    pending, second = {}, []             # enumerated vectors the code model does not explain -> second-level judgement
     for vid, (line, vec) in enum_map.items():
         r = res[vid]
         n_eval += 1
@@ -984,8 +1001,12 @@ def _conformance(ctx, tier, thorough, replay, work, model_job):
                 what = "%s: value %s of\n%s\n  documented JSON %s\n  observed %s" % (
                 verdict or "typed mapping differs from the specification", rust_decl_value(vec["v"], d, line["prog"]), rust_decl(d),
                 json_text(vec["doc"]), json.dumps(brief(r), ensure_ascii=False))
-            findings.append((what, {"kind": "map-vector", "id": vid, "expected": vec["exp"], "observed": r,
-                                    "tlc_line": dict(line, vecs=[vec])}, verdict))
+            obj = {"kind": "map-vector", "id": vid, "expected": vec["exp"], "observed": r, "tlc_line": dict(line, vecs=[vec])}
+            if verdict is None:      # not what the code model predicts: judged on the level of the statement by TLC (step 6)
+                pending[vid] = (what, obj)
+                second.append(record_of({"id": vid, "kind": "map", "prog": line["prog"], "d": line["d"], "v": vec["v"]}, r))
+            else:
+                findings.append((what, obj, verdict))
     for vid, line in enum_lit.items():
         r = res[vid]
         n_eval += 1
@@ -997,7 +1018,12 @@ def _conformance(ctx, tier, thorough, replay, work, model_job):
             mism += 1
             what = "%s: json!(%s) should be %s, observed %s" % (verdict or "json! differs from the specification", line["src"],
                                                                json_text(line["doc"]), json.dumps(brief(r), ensure_ascii=False))
-            findings.append((what, {"kind": "lit-vector", "id": vid, "expected": line["exp"], "observed": r, "tlc_line": line}, verdict))
+            obj = {"kind": "lit-vector", "id": vid, "expected": line["exp"], "observed": r, "tlc_line": line}
+            if verdict is None:
+                pending[vid] = (what, obj)
+                second.append(record_of({"id": vid, "kind": "lit", "ast": line["ast"]}, r))
+            else:
+                findings.append((what, obj, verdict))
     ctx.add_part("enumerated vectors", programs=len(programs), map_vectors=len(enum_map), literals=len(enum_lit), mismatches=mism,
                  verdicts={str(k): v for k, v in tally.items()})
     vlib.log("[C14] enumerated vectors: %s" % tally)
@@ -1011,17 +1037,12 @@ def _conformance(ctx, tier, thorough, replay, work, model_job):
 
     # ---- 6. random vectors validated by TLC ----------------------------------------------------------
     validated = 0
-    if rnd_inputs:
-        recs = []
+    drifts = []
+    if rnd_inputs or second:
+        recs = list(second)
         for x in rnd_inputs:
             r = res[x["id"]]
-            rec = {k: v for k, v in x.items() if k not in ("pidx", "split")}
-            rec["compiled"] = r["compiled"]
-            rec["rustc"] = r.get("rustc", "")
-            rec["panic"] = r.get("panic", "")
-            rec["obs"] = r.get("obs", {"t": "null", "s": "", "k": [], "c": []})
-            for k in (("rt", "rtt", "pe", "fe", "sp") if x["kind"] == "map" else ("eq",)):
-                rec[k] = bool(r.get(k, False))
+            rec = record_of(x, r)
             recs.append(rec)
             n_eval += 1
             if x["kind"] == "map":
@@ -1046,24 +1067,49 @@ def _conformance(ctx, tier, thorough, replay, work, model_job):
         validated = len(recs)
         for a in summ["attributed"]:
             x = byid[a["id"]]
+            if a["id"] in pending:
+                findings.append((a["dev"] + " (on the level of the statement): " + pending[a["id"]][0], pending[a["id"]][1], a["dev"]))
+                continue
             findings.append(("%s: random vector %s, observed %s" % (a["dev"], describe(x), json_text(x["obs"])),
                              {"kind": "trace-record", "record": x}, a["dev"]))
         for b in summ["rejected"]:
             x = byid[b["id"]]
             if b["why"] == "baddomain":
                 raise vlib.ToolError("random generator produced an input outside the property's domain: %s" % describe(x))
+            if b["id"] in pending:
+                findings.append((pending[b["id"]][0], pending[b["id"]][1], None))
+                continue
             findings.append(("random vector rejected by Trace_JsonMap: %s, observed %s" % (describe(x), json.dumps(brief(x), ensure_ascii=False)[:1500]),
                              {"kind": "trace-record", "record": x}, None))
-        ctx.add_part("random vectors", records=len(recs), attributed=len(summ["attributed"]), rejected=len(summ["rejected"]))
+        for dr in summ.get("drift", []):
+            x = byid[dr["id"]]
+            why = ("input beyond the statement's quantifier (f32 / non-literal json! key / very wide literal)" if dr["beyond"] else
+                   "the statement holds (value comes back, members and shapes as documented) but not as the code model predicts "
+                   "(member order, reading back the declaration-order text, serialiser/parser agreement)")
+            what, obj = pending.get(dr["id"], ("random vector %s, observed %s" % (describe(x), json.dumps(brief(x), ensure_ascii=False)[:1200]),
+                                                 {"kind": "trace-record", "record": x}))
+            drifts.append(("jsonmap-model", why + ": " + what, obj))
+        settled = {a["id"] for a in summ["attributed"]} | {b["id"] for b in summ["rejected"]} | {d_["id"] for d_ in summ.get("drift", [])}
+        lost = [vid for vid in pending if vid not in settled]
+        if lost:
+            raise vlib.ToolError("TLC's printed expectation and Trace_JsonMap disagree about %s" % lost[:5])
+        ctx.add_part("random vectors", records=len(recs), attributed=len(summ["attributed"]), rejected=len(summ["rejected"]),
+                     drift=len(summ.get("drift", [])), second_level=len(second))
         for x in recs[:2]:
             ctx.sample({"random": describe(x), "observed": json_text(x["obs"])})
 
         # binding self-test: one altered observation must be rejected by TLC (DESIGN 3.1); it presumes a clean run
         # (on a tree with unexplained mismatches the picked "good" records need not be good)
         unexplained = [f for f in findings if f[2] is None]
-        judged = {a["id"] for a in summ["attributed"]} | {b["id"] for b in summ["rejected"]}
+        judged = settled
         clean = [x for x in recs if x["id"] not in judged and x["compiled"] and x["panic"] == "" and x["obs"]["c"]]
-        good = [] if (replay or unexplained) else ([x for x in clean if x["kind"] == "map"][:1] + [x for x in clean if x["kind"] == "lit"][:1])
+        # (inputs inside the statement's quantifier only: a disagreement on an f32 program or on a literal with objects whose
+        # keys may be non-literal is drift by design, see Beyond in Trace_JsonMap.tla)
+        def no_obj(n):
+            return n["k"] != "obj" and all(no_obj(i) for i in n["items"])
+        cm = [x for x in clean if x["kind"] == "map" and not any(f["ty"]["base"] == "F32" for d_ in x["prog"] for f in d_["fields"])]
+        cl = [x for x in clean if x["kind"] == "lit" and no_obj(x["ast"]) and len(x["ast"]["items"]) < 20]
+        good = [] if (replay or unexplained) else (cm[:1] + cl[:1])
         bad = []
         for x in good:
             y = json.loads(json.dumps(x))
@@ -1089,6 +1135,8 @@ def _conformance(ctx, tier, thorough, replay, work, model_job):
         model_job.result()                 # the theorems on the model; re-raises its ToolError
     for what, obj, dev in sorted(findings, key=lambda f: len(f[0])):
         ctx.violation(what[:1200], obj, dev=dev)
+    for area, what, obj in sorted(drifts, key=lambda f: len(f[1]))[:40]:
+        ctx.drift(area, what[:1200], obj)
 
     ctx.cov["evaluations"] = n_eval
     ctx.cov["distinct_nontrivial"] = len(nontrivial)
